@@ -508,7 +508,7 @@ func goodFor(op string, i int) Resp {
 	case "Repositories":
 		r.Body = "catalog"
 	case "Referrers":
-		r.Body = []string{"index", "index5", "index5"}[i%3]
+		r.Body = []string{"index5", "index", "index5"}[i%3]
 		if i%4 == 3 {
 			h["OCI-Filters-Applied"] = "artifactType"
 		}
